@@ -254,19 +254,18 @@ def main(tier, seed):
                                client_errors=sum(1 for r in loops if r and r['error']))
     cov['samples'] = [inter[0][0], dict((k, v) for k, v in (loops[1] or {}).items())]
     for w in writes:
-        dec.report(dict(kind='shared-state-write', theorem='the code no longer has the separated shape C20_isolation assumes',
-                        **w), no_input=True)
+        dec.report(dict(w, kind='shared-state-write', theorem='the code no longer has the separated shape C20_isolation assumes'), no_input=True)
     live = [c for c in inter if c[1] is not None]
     for c in inter:
         if c[1] is None:
-            dec.report(dict(kind='interleaved-provider-stuck', **c[0]))
+            dec.report(dict(c[0], kind='interleaved-provider-stuck'))
     bad = set(f1['spec'])
     for i in sorted(bad):
-        dec.report(dict(kind='interleaving-changes-result', ops=pd.short_ops(live[i][2]), result=pd.summary(live[i][1]),
-                        solo=pd.summary(live[i][3]), **live[i][0]))
+        dec.report(dict(live[i][0], kind='interleaving-changes-result', ops=pd.short_ops(live[i][2]), result=pd.summary(live[i][1]),
+                        solo=pd.summary(live[i][3])))
     for i in f1['corr']:
         if i not in bad:
-            dec.report(dict(kind='model-differs', theorem='prov_corr', ops=pd.short_ops(live[i][2]), **live[i][0]), no_input=True)
+            dec.report(dict(live[i][0], kind='model-differs', theorem='prov_corr', ops=pd.short_ops(live[i][2])), no_input=True)
     for i in f2['spec']:
         if i < len(loops):
             dec.report(dict(kind='association-disturbed', **(loops[i] or dict(client=i, error='thread did not finish'))))
